@@ -2,7 +2,7 @@
    uIR fragment; for every kind the regenerated pieces carry table theorems). *)
 From Coq Require Import List Bool ZArith String.
 From LLIR Require Import Gen.Printers Gen.FieldFlow Reviewed.Printers.
-From LLIR Require Import Pipeline.MicroIR Pipeline.MicroIRProofs Pipeline.MicroIRSpelling.
+From LLIR Require Import Pipeline.MicroIR Pipeline.MicroIRProofs Pipeline.MicroIRSpelling Pipeline.MicroIRNoCrash.
 From LLIR Require Import Proofs.TranslatorDataflow Proofs.FieldFlowProofs Proofs.PrinterTableProofs.
 Import ListNotations.
 
@@ -15,6 +15,12 @@ Import ListNotations.
 Theorem C01_printed_module_is_input_in_canonical_spelling : forall choose_hex a m,
   translate a = MicroIR.Ok m -> erase choose_hex a = MicroIR.Ok (embed choose_hex m).
 Proof. exact erase_translate. Qed.
+
+(* and never crashes: every AST of the fragment, well-formed or not (undefined and duplicate names, numbers out
+   of sequence, malformed integer literals, labels that are not blocks), is translated or rejected with an
+   error *)
+Theorem C01_translate_never_panics : forall a, translate a <> MicroIR.Panic.
+Proof. exact translate_never_panics. Qed.
 
 (* every kind, over the regenerated bodies of the 66 asm.ir*Inst / ir*Term translators run with
    uninterpreted callees: each assigned field is computed from the part of the AST node of the same
